@@ -119,8 +119,20 @@ class World:
             self.Node = spec_class(type("Node", (), {"__annotations__": dict(ann)}))
             hann = dict(ann)
             hann[self.alias_name] = int if cfg["name"] in host["int"] else typing.Any
-            ns = {"__annotations__": hann, self.alias_name: self.descr}
-            self.Host = spec_class(type("Host", (), ns))
+            sub = host.get("sub", 0)
+            if not sub:
+                ns = {"__annotations__": hann, self.alias_name: self.descr}
+                self.Host = spec_class(type("Host", (), ns))
+            else:
+                # round G: the host is a spec SUBCLASS (sub=1) / sub-subclass (sub=2) that INHERITS
+                # the alias (and, unless listed in host["own"], the other attributes) from a parent
+                # spec class; every operation goes through the child
+                own = [ATTR[i] for i in host.get("own", [])]
+                pann = {k: v for k, v in hann.items() if k not in own}
+                cls = spec_class(type("Parent", (), {"__annotations__": pann, self.alias_name: self.descr}))
+                if sub == 2:
+                    cls = spec_class(type("Mid", (cls,), {"__annotations__": {}}))
+                self.Host = spec_class(type("Host", (cls,), {"__annotations__": {k: hann[k] for k in own}}))
         else:
             self.Node = type("Node", (), {})
             if cfg["bound"]:
@@ -559,6 +571,7 @@ def gen_config(rng, tier, i):
     name = rng.choice([5, 6])
     typed_alias = spec and rng.random() < 0.6
     host = {"spec": spec, "int": sorted(INT_ATTRS + ([name] if typed_alias else []))}
+    sub_host(host, path, i // 2)        # no rng draw: the case stream of earlier rounds is unchanged
     fb = rng.choice(FALLBACKS)
     cfg = {"path": path, "pt": rng.random() < 0.5, "tr": rng.choice([None, None, "FInc", "FNeg", "FSeven"]),
            "fb": fb, "name": name, "bound": True, "dep": rng.random() < 0.4, "quotes": rng.randrange(2)}
@@ -569,6 +582,21 @@ def gen_config(rng, tier, i):
     if not cfg["dep"] and rng.random() < 0.1:
         cfg["proxy"] = True
     return host, cfg
+
+
+def sub_host(host, path, j):
+    """round G: every second spec host is a spec SUBCLASS that inherits the alias from a parent
+    spec class (sub=1; every fourth: two levels, sub=2); host["own"] = attributes declared on the
+    child instead of the parent (nothing / c / b and c / the first attribute of the path, i.e. the
+    target is the child's own attribute and only the alias is inherited)."""
+    if not host["spec"]:
+        return host
+    sub = {1: 1, 3: 2}.get(j % 4, 0)
+    if sub:
+        host["sub"] = sub
+        first = [path[0][1]] if path and path[0][0] == "A" else []
+        host["own"] = [[], [3], [1, 3], first][(j // 4) % 4]
+    return host
 
 
 def gen_init(rng, host, cfg):
@@ -685,8 +713,9 @@ def exhaustive_cases(rng, tier):
     rng.shuffle(core)
     chosen = core[:20 if quick else 40]
     out = []
-    for spec, pt, tr, fb, dep, path in chosen:
+    for ci, (spec, pt, tr, fb, dep, path) in enumerate(chosen):
         host = {"spec": spec, "int": sorted(INT_ATTRS + ([5] if spec else []))}
+        sub_host(host, path, ci)
         cfg = {"path": path, "pt": pt, "tr": tr, "fb": fb, "name": 5, "bound": True, "dep": dep, "quotes": 0}
         init = happy_tree(rng, path, present=rng.random() < 0.75)
         r = rng.random()
@@ -722,11 +751,12 @@ def helper_cases(rng, tier):
     shapes = [PATH_SHAPES[1], PATH_SHAPES[1], PATH_SHAPES[0], PATH_SHAPES[2], PATH_SHAPES[4],
               PATH_SHAPES[6], PATH_SHAPES[7], [("A", 0), ("A", 1)], [("A", 1), ("I", 1), ("I", 0)]]
     out = []
-    for _ in range(n):
+    for ci in range(n):
         path = rng.choice(shapes)
         name = rng.choice([5, 6])
         typed_alias = rng.random() < 0.2
         host = {"spec": True, "int": sorted(INT_ATTRS + ([name] if typed_alias else []))}
+        sub_host(host, path, ci)
         cfg = {"path": path, "pt": rng.random() < 0.4, "tr": rng.choice([None, None, None, "FInc", "FSeven"]),
                "fb": rng.choice([None, None, ("i", 0), ("D", [(0, ("i", 1))]), ("T", [("D", [(0, ("i", 1))])])]),
                "name": name, "bound": True, "dep": rng.random() < 0.3, "quotes": 0}
@@ -783,6 +813,290 @@ def helper_cases(rng, tier):
             ops.append(("On", j, ("WrTarget", rng.choice(MUTABLE_LEAVES + SCALARS))))
         out.append((host, cfg, init, ops))
     return out
+
+
+# ------------------------------------------------------------------ round G: constructor keywords and top-level helpers
+# IMPLEMENTATION-LEVEL PROBE (not a Coq evaluation).  Oracle = the reference semantics of the
+# property, stated through the elementary operations that the Coq-judged blocks above tie to the
+# two-variable reference machine:
+#   Host(**kw)                      ==  a bare instance, then `o.<k> = v` for every keyword
+#                                       (parent-owned attributes first, then declaration order)
+#   o.update(**{n: v})              ==  copy.deepcopy(o), then `c.<n> = v`
+#   o.transform(**{n: g})           ==  copy.deepcopy(o), then `c.<n> = g(c.<n>)`
+#   o.reset()                       ==  copy.deepcopy(o), then `del c.<n>` for every managed attribute
+#                                       (AttributeError of an attribute that is not there ignored)
+#   ..._inplace=True                ==  the same on `o` itself, which is also what is returned
+# Both sides run on the tree under test; after every operation the outcome, the `__dict__` tree of
+# every live instance, and what the alias and the target read as on every live instance must agree,
+# a copy variant must hand back a new instance that shares no mutable object with an earlier one,
+# an in-place variant the instance itself.
+TL_KINDS = ("Ctor", "Reset", "Update", "Transform")
+HFNS_TYPED = ["HId", "HPush", "HPushOne", "HInc", "HSeven"]    # no dict for an `int` attribute (C05 territory)
+
+
+def _canon(t):
+    """__dict__ order of the ROOT is not compared (a constructor assigns in declaration order)"""
+    return ("I", sorted(t[1], key=lambda p: p[0])) if t[0] == "I" else t
+
+
+def ctor_order(Host, names):
+    meta = Host.__spec_class__
+    owners = [c for c in reversed(Host.mro())
+              if getattr(c, "__spec_class__", None) is not None and c.__spec_class__.owner is c]
+    pos = list(meta.attrs)
+    return sorted(names, key=lambda n: (owners.index(meta.attrs[n].owner), pos.index(n)))
+
+
+class Probe:
+    def __init__(self, case):
+        self.host, self.cfg, self.init, self.ops = case
+        self.w = World(self.host, self.cfg)
+        self.y = self.w.alias_name
+
+    def name_of(self, which):
+        return self.y if which == "alias" else ATTR[which]
+
+    def view(self, o):
+        """what the alias and the target read as (value tree or error class)"""
+        out = []
+        for rd in (lambda: getattr(o, self.y), lambda: self.w.walk(o, self.cfg["path"])):
+            try:
+                out.append(("v", self.w.tree(rd())))
+            except Exception as e:
+                out.append(("e", outcome_class(e)))
+        return out
+
+    def impl(self, roots, op):
+        w, k = self.w, op[0]
+        if k == "On":
+            return w.apply(roots, op)
+        prior = set()
+        for r in roots:
+            w.mutable_ids(r, prior)
+        if k == "Ctor":
+            kw = {}
+            for which, t in op[1]:
+                kw[self.name_of(which)] = w.build(t)
+            n = w.Host(**kw)
+            inplace, src = False, None
+        else:
+            src, inplace = roots[op[1]], op[2]
+            if k == "Reset":
+                n = src.reset(_inplace=inplace)
+            elif k == "Update":
+                n = src.update(_inplace=inplace, **{self.name_of(op[3]): w.build(op[4])})
+            else:
+                n = src.transform(_inplace=inplace, **{self.name_of(op[3]): w.hfn(op[4])})
+        if inplace:
+            return ("ONone",) if n is src else ("OVal", ("s", -87))       # must hand back the instance itself
+        if n is src:
+            return ("OVal", ("s", -88))                                     # a copy variant handing back `self`
+        shared = w.mutable_ids(n) & prior
+        roots.append(n)
+        return ("ONone",) if not shared else ("OVal", ("s", -90))
+
+    def ref(self, roots, op):
+        w, k = self.w, op[0]
+        if k == "On":
+            return w.apply(roots, op)
+        if k == "Ctor":
+            c = w.build(("I", []), root=True)
+            vals = {self.name_of(which): w.build(t) for which, t in op[1]}
+            for nme in ctor_order(w.Host, list(vals)):
+                setattr(c, nme, vals[nme])
+            roots.append(c)
+            return ("ONone",)
+        src, inplace = roots[op[1]], op[2]
+        c = src if inplace else copy.deepcopy(src)
+        if k == "Reset":
+            for nme in list(w.Host.__spec_class__.attrs):
+                try:
+                    delattr(c, nme)
+                except AttributeError:
+                    pass
+        elif k == "Update":
+            setattr(c, self.name_of(op[3]), w.build(op[4]))
+        else:
+            # the callable sees what `c.<n>` reads as on the instance being changed (the copy's own
+            # live object: a callable that writes into its argument may change the COPY's target,
+            # never an earlier instance); the caller made sure this read succeeds
+            setattr(c, self.name_of(op[3]), w.hfn(op[4])(getattr(c, self.name_of(op[3]))))
+        if not inplace:
+            roots.append(c)
+        return ("ONone",)
+
+    def run(self):
+        """-> (operations executed, first disagreement or None)"""
+        w = self.w
+        A, B = [w.build(self.init, root=True)], [w.build(self.init, root=True)]
+        done = []
+        for op in self.ops:
+            if op[0] != "Ctor" and op[1] >= len(B):
+                op = (op[0], 0) + tuple(op[2:])
+            if op[0] == "Transform":
+                try:     # the start value of a transform whose read fails is C05's business (MISSING -> type())
+                    getattr(B[op[1]], self.name_of(op[3]))
+                except Exception:
+                    continue
+            done.append(op)
+            res = []
+            for side, roots in ((self.impl, A), (self.ref, B)):
+                n0 = len(roots)
+                with warnings.catch_warnings():
+                    warnings.simplefilter("ignore")
+                    try:
+                        out = side(roots, op)
+                    except BaseException as e:
+                        if isinstance(e, (KeyboardInterrupt, SystemExit, AssertionError)):
+                            raise
+                        out = ("Err", outcome_class(e))
+                        del roots[n0:]
+                    if out[0] == "OFresh":      # freshness of a read is judged by the Coq blocks, not here
+                        out = ("OVal", out[1])
+                    res.append((out, [_canon(w.tree(r)) for r in roots], [self.view(r) for r in roots]))
+            if res[0] != res[1]:
+                what = ("outcome" if res[0][0] != res[1][0] else "instance trees" if res[0][1] != res[1][1]
+                        else "alias / target reads")
+                return done, {"after_operation": len(done) - 1, "differs_in": what,
+                              "implementation": res[0], "reference_semantics": res[1]}
+        return done, None
+
+
+def toplevel_cases(rng, tier):
+    """cases for the probe: spec hosts (half of them subclasses inheriting the alias), a path the
+    constructor / top-level helpers can reach, operations = constructor with alias / target /
+    other keywords, top-level reset / update / transform (copy and in place) on alias and target,
+    mixed with the elementary reads, writes and deletes."""
+    n = 2000 if tier == "quick" else 20000
+    shapes = [PATH_SHAPES[0]] * 3 + [PATH_SHAPES[1]] * 3 + [PATH_SHAPES[2], PATH_SHAPES[4], PATH_SHAPES[6],
+                                                            [("A", 0), ("A", 1)]]
+    out = []
+    for ci in range(n):
+        path = rng.choice(shapes)
+        name = rng.choice([5, 6])
+        typed_alias = rng.random() < 0.3
+        host = {"spec": True, "int": sorted(INT_ATTRS + ([name] if typed_alias else []))}
+        if ci % 3:
+            host["sub"] = 1 if ci % 3 == 1 else 2
+            host["own"] = rng.choice([[], [3], [1, 3], [path[0][1]]])
+        cfg = {"path": path, "pt": rng.random() < 0.4, "tr": rng.choice([None, None, "FInc", "FNeg"]),
+               "fb": rng.choice([None, None, ("i", 0), ("D", [(0, ("i", 1))])]),
+               "name": name, "bound": True, "dep": rng.random() < 0.2, "quotes": 0}
+        tgt_typed = slot_typed(host, cfg)
+        root_typed = path[0][1] in host["int"]              # the host attribute the path starts at
+        init = happy_tree(rng, path, present=rng.random() < 0.8,
+                          leaf=rand_val(rng, mutable_ok=not tgt_typed) if rng.random() < 0.4 else None)
+        init = no_empty_dict_in_typed_slot(init, host, cfg)
+        if not cfg["pt"] and rng.random() < 0.3:
+            init = ("I", init[1] + [(-name - 1, rng.choice(SCALARS if typed_alias else SCALARS + MUTABLE_LEAVES))])
+        alias_mut = not (typed_alias or (cfg["pt"] and tgt_typed))
+
+        def alias_val():
+            return rand_val(rng, mutable_ok=alias_mut)
+
+        def root_val():
+            """a value for the host attribute the path starts at: something the rest of the path can be followed in"""
+            if len(path) == 1:
+                return rand_val(rng, mutable_ok=not root_typed)
+            sub = happy_tree(rng, path[1:], present=rng.random() < 0.8)
+            return sub if rng.random() < 0.85 else rand_val(rng, mutable_ok=not root_typed)
+
+        def ctor():
+            kw = []
+            r = rng.random()
+            if r < 0.75:
+                kw.append((path[0][1], root_val()))
+            if rng.random() < 0.8:
+                kw.append(("alias", alias_val()))
+            if rng.random() < 0.3:
+                o = rng.choice([k for k in (0, 1, 3) if k != path[0][1]])
+                kw.append((o, rng.choice(SCALARS)))
+            rng.shuffle(kw)
+            return ("Ctor", kw)
+
+        ops, nroots = [], 1
+        style = rng.random()
+        if style < 0.4:                      # construction, then look / override / delete / helper
+            ops.append(ctor()); nroots += 1
+            cur = 1
+        else:
+            cur = 0
+            if rng.random() < 0.6:
+                ops.append(("On", 0, ("WrAlias", alias_val())))
+        for _ in range(rng.randint(1, 3)):
+            r = rng.random()
+            inplace = rng.random() < 0.4
+            which = "alias" if rng.random() < 0.7 else path[0][1]
+            if r < 0.35:
+                ops.append(("Reset", cur, inplace))
+            elif r < 0.5:
+                ops.append(("Update", cur, inplace, which, alias_val() if which == "alias" else root_val()))
+            elif r < 0.65:
+                typed = (typed_alias or (cfg["pt"] and tgt_typed)) if which == "alias" else root_typed
+                ops.append(("Transform", cur, inplace, which, rng.choice(HFNS_TYPED if typed else HFNS)))
+            elif r < 0.72:
+                ops.append(ctor())
+            else:
+                sub = rng.choice([("RdAlias",), ("WrAlias", alias_val()), ("DelAlias",), ("DelTarget",),
+                                  ("WrTarget", rand_val(rng, mutable_ok=not tgt_typed))])
+                ops.append(("On", cur, sub))
+                continue
+            if ops[-1][0] == "Ctor" or not inplace:
+                nroots += 1
+                if rng.random() < 0.7:
+                    cur = nroots - 1         # (re-clamped at run time when the helper raised)
+        # afterwards: change the target and so the live view, or drop the override
+        if rng.random() < 0.5:
+            ops.append(("On", cur, rng.choice([("WrTarget", rand_val(rng, mutable_ok=not tgt_typed)), ("DelAlias",)])))
+        out.append((host, cfg, init, ops))
+    return out
+
+
+def run_toplevel(cases):
+    """-> (operations executed, histogram, [(case index, executed ops, disagreement)])"""
+    nops, hist, bad = 0, {}, []
+    for i, case in enumerate(cases):
+        done, diff = Probe(case).run()
+        nops += len(done)
+        for o in done:
+            k = (o[0] + ("_inplace" if o[0] in ("Reset", "Update", "Transform") and o[2] else "")) if o[0] != "On" else o[2][0]
+            hist[k] = hist.get(k, 0) + 1
+        if diff is not None:
+            bad.append((i, done, diff))
+    return nops, hist, bad
+
+
+def shrink_toplevel(case, done):
+    """drop operations while the probe still disagrees"""
+    host, cfg, init, _ = case
+    cur = list(done)
+    changed = True
+    while changed:
+        changed = False
+        for j in range(len(cur)):
+            cand = cur[:j] + cur[j + 1:]
+            if cand and Probe((host, cfg, init, cand)).run()[1] is not None:
+                cur, changed = cand, True
+                break
+    d2, diff = Probe((host, cfg, init, cur)).run()
+    return (host, cfg, init, d2), diff
+
+
+def tl_from_json(r):
+    cfg = dict(r["cfg"])
+    cfg["path"] = [tuple(s) for s in cfg["path"]]
+    cfg["fb"] = tree_from_json(cfg["fb"]) if cfg["fb"] is not None else None
+
+    def op(o):
+        if o[0] == "On":
+            sub = o[2]
+            return ("On", o[1], (sub[0], tree_from_json(sub[1])) if len(sub) > 1 else (sub[0],))
+        if o[0] == "Ctor":
+            return ("Ctor", [(k, tree_from_json(t)) for k, t in o[1]])
+        if o[0] == "Update":
+            return (o[0], o[1], o[2], o[3], tree_from_json(o[4]))
+        return tuple(o)
+    return (r["host"], cfg, tree_from_json(r["init"]), [op(o) for o in r["ops"]])
 
 
 def generate(rng, tier):
@@ -948,6 +1262,10 @@ def main(tier, replay=None):
                 bad = [b for b in bad if b["path"] == r["path"]]
             print("replay (parser):", bad or "passes now")
             return 1 if bad else 0
+        if r.get("kind") == "toplevel":
+            done, diff = Probe(tl_from_json(r)).run()
+            print("replay (constructor / top-level helper probe):", diff or "passes now")
+            return 1 if diff else 0
         case = from_json(r)
         bad, logs = evaluate([case], tag="r")
         print("replay:", "still failing code=%s" % bad[0][1] if bad else "passes now", logs)
@@ -969,6 +1287,24 @@ def main(tier, replay=None):
     cases = corpus + cases
     st = Stats()
     bad, logs = evaluate(cases, stats=st)
+    # round G: constructor keywords and top-level helpers (implementation-level probe)
+    tl = toplevel_cases(chk.rng, tier)
+    tl_ops, tl_hist, tl_bad = run_toplevel(tl)
+    tl_seen = set()
+    for i, done, diff in tl_bad:
+        k = done[diff["after_operation"]]
+        tsig = (op_kind(k) if k[0] == "On" else k[0], tl[i][0].get("sub", 0) > 0, tl[i][1]["pt"])
+        if tsig in tl_seen or len(tl_seen) >= 4:
+            continue
+        tl_seen.add(tsig)
+        small, d2 = shrink_toplevel(tl[i], done)
+        d2 = d2 or diff
+        chk.violation(f"Alias on a spec class: {tsig[0]} does not act like the assignments / deletions it stands for "
+                      f"({d2['differs_in']} differ): host={small[0]} cfg={small[1]} init={small[2]} ops={small[3]}",
+                      {"kind": "toplevel", "host": small[0], "cfg": small[1], "init": small[2], "ops": small[3],
+                       "path_string": render_path(small[1]["path"]), "observed": d2,
+                       "replay": "bin/check C18 --replay <this file>"},
+                      sig={"op": tsig[0], "passthrough": small[1]["pt"], "spec": True}, no_input=False)
     # parser: validated, not proved
     pn, pbad = parser_check(sorted({(tuple(c[1]["path"]), c[1].get("quotes", 0)) for c in cases}))
     for b in pbad[:3]:
@@ -1008,10 +1344,17 @@ def main(tier, replay=None):
             "op_histogram": st.ophist, "outcome_histogram": st.errhist, "length_histogram": st.lenhist,
             "path_shape_histogram": st.shapes, "configurations_seen": len(st.cfghist),
             "configuration_histogram_top": dict(sorted(st.cfghist.items(), key=lambda kv: -kv[1])[:12]),
-            "hosts": ["plain class", "spec class (alias annotated: managed, type-checked)"],
+            "hosts": ["plain class", "spec class (alias annotated: managed, type-checked)",
+                      "spec subclass / sub-subclass inheriting the alias from a parent spec class"],
+            "subclass_host_cases": len([c for c in cases if c[0].get("sub")]),
             "corpus_cases": len(corpus), "exhaustive_cases": len(exh), "helper_block_cases": len(helpers),
             "random_cases": len(cases) - len(exh) - len(helpers) - len(corpus),
         },
+        "toplevel_probe": {"cases": len(tl), "operations": tl_ops, "op_histogram": tl_hist,
+                           "disagreements": len(tl_bad),
+                           "subclass_hosts": len([c for c in tl if c[0].get("sub")]),
+                           "oracle": "implementation-level probe (not a Coq evaluation): Host(**kw), update(), transform(), "
+                                     "reset() (copy and in place) must act like the assignments / deletions they stand for"},
         "attr_proxy": {"constructed": PROXY["built"], "not_alias_plus_one_warning": len(PROXY["bad"])},
         "parser_validated_not_proved": {"path_strings_compared": pn, "mismatches": len(pbad),
                                         "invalid_strings_rejected": len(INVALID_PATHS)},
